@@ -44,6 +44,12 @@ def gen(rng):
         last_pt = m["updates"][-1]["pt"]
         first_pt = m["updates"][0]["pt"]
         m["market_time"] = rng.choice([first_pt + 1500, last_pt + 2000, first_pt - 1000, (first_pt + last_pt) // 2])
+        if rng.random() < 0.35 and len(m["updates"]) > 2:
+            # the start is rescheduled part-way through the file (a later market definition carries another marketTime)
+            k = rng.randrange(1, len(m["updates"]))
+            new_mt = m["market_time"] + rng.choice([-3000, -1500, 2500, 6000])
+            for u in m["updates"][k:]:
+                u["market_time"] = new_mt
     if ev and rng.random() < 0.3:
         sc["event_groups"] = {"200": "G", "300": "G"}
     sc["listener_kwargs"] = rng.choice([{}, {}, {"inplay": True}, {"inplay": False}, {"seconds_to_start": 1}, {"seconds_to_start": 2},
@@ -93,7 +99,7 @@ def expected_streams(sc):
         st = (False, None)
         pts = []
         for u in m["updates"]:
-            st, ok = passes(cfg, st, u, m["market_time"])
+            st, ok = passes(cfg, st, u, u.get("market_time", m["market_time"]))
             if ok:
                 pts.append(u["pt"])
         out[m["id"]] = pts
@@ -206,7 +212,7 @@ def run(res, tier, seed, model_ok, search):
                 gtok = str(gnum.setdefault(g, len(gnum) + 1))
             else:
                 gtok = "-"
-            raws = ",".join("%d:%s:%s:%d" % (u["pt"], u["status"], "T" if u["inplay"] else "F", m["market_time"]) for u in m["updates"])
+            raws = ",".join("%d:%s:%s:%d" % (u["pt"], u["status"], "T" if u["inplay"] else "F", u.get("market_time", m["market_time"])) for u in m["updates"])
             lines.append("merge.filter %s %s %s %s" % ("-" if cfg.get("inplay") is None else ("T" if cfg["inplay"] else "F"),
                                                       cfg.get("seconds_to_start") or "-", "-" if cfg.get("max_inplay_seconds") is None else cfg["max_inplay_seconds"], raws))
             expects.append(("filter", ",".join(str(p) for p in [pt for mm, pt in seq if mm == m["id"]]) or "."))
